@@ -10,6 +10,7 @@ use crate::swc_tools::SymbolExportDefault;
 use crate::swc_tools::bind_locals::ParserOfModuleLocals;
 use crate::swc_tools::parse::parse_with_swc;
 use anyhow::Result;
+use anyhow::anyhow;
 use std::collections::HashMap;
 use std::rc::Rc;
 use swc_common::FileName;
@@ -425,6 +426,12 @@ pub fn parse_and_bind<R: FsModuleResolver>(
                 }
             }
         }
+    }
+
+    if symbol_exports.duplicate_default_export {
+        return Err(anyhow!(
+            "A module cannot have multiple default exports: {file_name:?}"
+        ));
     }
 
     let f = Rc::new(ParsedModule {
